@@ -59,6 +59,54 @@ class C05(Prop):
                     continue
                 fails.append(dict(literal=lit, stack=repr(st), expected=str(want), error=r["error"]))
                 return fails, n
+        # the same literals inside structures and after other literal kinds with the same text (the value of a
+        # numeric literal does not depend on where it stands or on what was lowered before it in this process)
+        ctx_lits = ["0", "7", "12", "41", "1093", "0.5", "2.75", "0.30000000000000004", "0.123456789012345678", "1234567890123456789012345.5", "9007199254740993.25", "100.00"]
+        contexts = [("list item", "⟨{}⟩", lambda st: st[0][0] if len(st) == 1 and hasattr(st[0], "__getitem__") else None),
+                    ("second list item", "⟨1|{}⟩", lambda st: st[0][1] if len(st) == 1 else None),
+                    ("lambda body", "λ{};†", lambda st: st[-1] if st else None),
+                    ("if branch", "1[{}]", lambda st: st[-1] if st else None),
+                    ("for body", "1({})", lambda st: st[-1] if st else None),
+                    ("after a string with the same text", "`{}` {}", lambda st: st[-1] if len(st) == 2 else None),
+                    ("after a compressed number with the same text", "»{}» {}", lambda st: st[-1] if len(st) == 2 else None),
+                    ("after a code-page number", "⁺{} {}", lambda st: st[-1] if len(st) == 2 else None),
+                    ("in a lambda after a string", "λ`{}` {};†", lambda st: st[-1] if st else None)]
+        for lit in ctx_lits:
+            want = Fraction(lit)
+            alone = rc.run_program(lit, ())
+            if alone["error"] is not None or len(alone["stack"]) != 1:
+                continue
+            ref = alone["stack"][0]
+            for cname, tmpl, pick in contexts:
+                if tmpl.startswith("⁺") and len(lit) != 1:
+                    continue
+                n += 1
+                r = rc.run_program(tmpl.replace("{}", lit), ())
+                got = None
+                try:
+                    got = pick(list(r["stack"])) if r["error"] is None else None
+                    same = got is not None and not isinstance(got, (str, float)) and rc.simp(got) == rc.simp(ref)
+                except Exception:  # noqa
+                    same = False
+                if not same:
+                    fails.append(dict(literal=lit, context=cname, program=tmpl.replace("{}", lit), got=repr(got)[:120], alone=repr(ref)[:120], expected=str(want), error=r["error"]))
+                    return fails, n
+        # both orders of lowering: a string lowered before the number with the same text, and after it
+        for lit in ("13", "3.25", "77", "6.125"):
+            for prog, idx_num, idx_str in ((f"`{lit}` {lit}", 1, 0), (f"{lit} `{lit}`", 0, 1), (f"λ`{lit}` {lit};† `{lit}`", 0, 1)):
+                n += 1
+                r = rc.run_program(prog, ())
+                st = list(r["stack"] or [])
+                ok = r["error"] is None and len(st) == 2 and isinstance(st[idx_str], str) and st[idx_str] == lit and not isinstance(st[idx_num], (str, float))
+                if ok:
+                    v = st[idx_num]
+                    try:
+                        ok = (Fraction(int(v.p), int(v.q)) if hasattr(v, "p") else Fraction(v)) == Fraction(lit)
+                    except Exception:  # noqa
+                        ok = False
+                if not ok and not (lit.isdigit() and r["error"] is None and len(st) == 2 and repr(st[idx_num]) == repr(sympy.nsimplify(lit)) and st[idx_str] == lit):
+                    fails.append(dict(program=prog, stack=repr(st)[:200], expected=f"the string {lit!r} and the number {lit}", error=r["error"]))
+                    return fails, n
         # splitting of adjacent literals, as documented
         from vyxal.lexer import tokenise
 
@@ -72,7 +120,7 @@ class C05(Prop):
 
     def bounded(self, W, tier, seed):
         fails, n = self.literal_search(tier, seed)
-        return [dict(name="C05/bounded-literals", what="integer and decimal literals run alone on the real interpreter; the value on the stack compared exactly with fractions.Fraction(literal); documented splitting of adjacent literals", bound="integers 0..299 (quick) / 0..10^5 (thorough), sampled to 10^60; decimals to 25+18 digits", evaluations=n, label="bounded (also the conformance sample for the assumed sympy contracts)", failures=fails)]
+        return [dict(name="C05/bounded-literals", what="integer and decimal literals run alone on the real interpreter; the value on the stack compared exactly with fractions.Fraction(literal); documented splitting of adjacent literals; 12 literals in 9 contexts (list item, lambda, branches, after a string / compressed number / code-page number with the same text) must push what they push alone", bound="integers 0..299 (quick) / 0..10^5 (thorough), sampled to 10^60; decimals to 25+18 digits", evaluations=n, label="bounded (also the conformance sample for the assumed sympy contracts)", failures=fails)]
 
     def replay(self, W, report, ob):
         if report["key"].endswith("::tokenise"):
